@@ -172,3 +172,109 @@ theorem C11_longestpath_feasible (g g' : G) (rank : Nat → Nat) (hR : ∀ v w, 
     omega
 
 end Autog
+
+namespace Autog
+open LongestPath
+
+/-! ## the bands: every node sits `ht − 1` bands above the bottom band, and there are exactly `max ht` bands -/
+
+def maxHt (g : G) (memo : List (Nat × Nat)) : Nat := g.nodeIds.foldl (fun m n => max m ((look memo n).getD 0)) 0
+
+/-- the layer LongestPath assigns: (number of nodes on the longest path in the component) − (number of nodes on the longest path
+    starting at the node) — i.e. the node sits exactly `ht v − 1` bands above band `maxHt − 1` -/
+theorem C11_layer_formula (g g' : G) (h : execLongestPath g = .ok g') :
+    ∃ memo, heights g = .ok memo ∧
+      ∀ v, v < g.nodes.size → g'.layerOf v = (maxHt g memo : Int) - (((look memo v).getD 0 : Nat) : Int) := by
+  unfold execLongestPath at h
+  simp only [bind, Except.bind] at h
+  cases hm : heights g with
+  | error e => rw [hm] at h; cases h
+  | ok memo =>
+    rw [hm] at h
+    simp only [pure, Except.pure, Except.ok.injEq] at h
+    subst h
+    refine ⟨memo, rfl, fun v hv => ?_⟩
+    simp [G.layerOf, G.node, Array.getD_eq_getD_getElem?, hv, maxHt]
+
+theorem foldl_max_ge11 (f : Nat → Nat) : ∀ (l : List Nat) (m : Nat), m ≤ l.foldl (fun m n => max m (f n)) m
+  | [], m => Nat.le_refl _
+  | x :: l, m => Nat.le_trans (Nat.le_max_left _ _) (foldl_max_ge11 f l _)
+
+theorem le_foldl_max11 (f : Nat → Nat) : ∀ (l : List Nat) (m x : Nat), x ∈ l → f x ≤ l.foldl (fun m n => max m (f n)) m
+  | a :: l, m, x, h => by
+    rcases List.mem_cons.1 h with rfl | h
+    · exact Nat.le_trans (Nat.le_max_right _ _) (foldl_max_ge11 f l _)
+    · exact le_foldl_max11 f l _ x h
+
+theorem foldl_max_attained (f : Nat → Nat) : ∀ (l : List Nat) (m : Nat),
+    l.foldl (fun m n => max m (f n)) m = m ∨ ∃ x ∈ l, l.foldl (fun m n => max m (f n)) m = f x
+  | [], m => Or.inl rfl
+  | a :: l, m => by
+    simp only [List.foldl_cons]
+    rcases foldl_max_attained f l (max m (f a)) with h | ⟨x, hx, h⟩
+    · rw [h]
+      rcases Nat.le_total m (f a) with h1 | h1
+      · right; exact ⟨a, List.mem_cons_self .., by rw [Nat.max_eq_right h1]⟩
+      · left; rw [Nat.max_eq_left h1]
+    · right; exact ⟨x, List.mem_cons_of_mem _ hx, h⟩
+
+/-- some node of every non-empty acyclic state is a sink of height 1 (follow `att` downwards) -/
+theorem exists_height_one {out : Nat → List Nat} {ht : Nat → Nat} (H : Heights out ht) (S : Nat → Prop)
+    (hS : ∀ v, S v → ∀ w ∈ out v, S w) : ∀ (k : Nat) (v : Nat), S v → ht v = k → ∃ u, S u ∧ ht u = 1 := by
+  intro k
+  induction k using Nat.strongRecOn with
+  | _ k ih =>
+    intro v hv hk
+    rcases H.att v with h1 | ⟨w, hw, _, e⟩
+    · exact ⟨v, hv, h1⟩
+    · exact ih (ht w) (by omega) w (hS v hv w hw) rfl
+
+/-- C11: with LongestPath layering the layer list has exactly `maxHt` bands — the number of nodes on the longest directed path —,
+    every node of height 1 (every sink) sits in the last one, and no band index exceeds it -/
+theorem C11_band_count (g g' : G) (rank : Nat → Nat) (hR : ∀ v w, w ∈ outNbrs g v → w ≠ v → rank w < rank v)
+    (hclosed : ∀ v, v ∉ g.nodeIds → outNbrs g v = []) (hwfE : ∀ v ∈ g.nodeIds, ∀ w ∈ outNbrs g v, w ∈ g.nodeIds)
+    (hne : g.nodes.size ≠ 0) (h : execLongestPath g = .ok g') :
+    ∃ memo, heights g = .ok memo ∧
+      (∀ v, v < g.nodes.size → 0 ≤ g'.layerOf v ∧ g'.layerOf v ≤ (maxHt g memo : Int) - 1) ∧
+      (∃ u, u < g.nodes.size ∧ g'.layerOf u = (maxHt g memo : Int) - 1) ∧
+      (∃ t, t < g.nodes.size ∧ g'.layerOf t = 0) := by
+  obtain ⟨memo, hm, hlay⟩ := C11_layer_formula g g' h
+  have H := C11_heights g rank hR hclosed memo hm
+  obtain ⟨_, _, hall⟩ := heightsLoop_spec g rank hR g.nodeIds [] memo (memoOK_nil _) hm
+  have hht : ∀ v, v < g.nodes.size → (look memo v).getD 0 = htOf memo v := by
+    intro v hv
+    obtain ⟨hv1, hl⟩ := hall v (by simpa [G.nodeIds] using hv)
+    simp [htOf, hl]
+  have hle : ∀ v, v < g.nodes.size → (look memo v).getD 0 ≤ maxHt g memo := by
+    intro v hv
+    exact le_foldl_max11 (fun n => (look memo n).getD 0) g.nodeIds 0 v (by simpa [G.nodeIds] using hv)
+  refine ⟨memo, hm, fun v hv => ?_, ?_, ?_⟩
+  · rw [hlay v hv]
+    have h1 := hle v hv
+    have h2 : 1 ≤ (look memo v).getD 0 := by rw [hht v hv]; exact H.pos v
+    omega
+  · -- a sink
+    have h0 : (0 : Nat) ∈ g.nodeIds := by simp [G.nodeIds]; omega
+    obtain ⟨u, hu, hu1⟩ := exists_height_one H (fun v => v ∈ g.nodeIds) (fun v hv w hw => hwfE v hv w hw) _ 0 h0 rfl
+    have hus : u < g.nodes.size := by simpa [G.nodeIds] using hu
+    refine ⟨u, hus, ?_⟩
+    rw [hlay u hus, hht u hus, hu1]; rfl
+  · -- a node on top of a longest path
+    rcases foldl_max_attained (fun n => (look memo n).getD 0) g.nodeIds 0 with h0 | ⟨t, ht, hmax⟩
+    · -- maximum 0 is impossible: node 0 has height ≥ 1
+      have h00 : 0 < g.nodes.size := by omega
+      have := hle 0 h00
+      have h1 : 1 ≤ (look memo 0).getD 0 := by rw [hht 0 h00]; exact H.pos 0
+      unfold maxHt at this
+      rw [h0] at this
+      omega
+    · have hts : t < g.nodes.size := by simpa [G.nodeIds] using ht
+      refine ⟨t, hts, ?_⟩
+      rw [hlay t hts]
+      unfold maxHt
+      rw [hmax]
+      omega
+
+example : (execLongestPath exLP).toOption.map (fun g => g.nodes.toList.map (·.layer)) = some [0, 1, 2] := by decide +kernel
+
+end Autog
